@@ -90,7 +90,10 @@ def cfg_text(spec="Spec", constants=None, invariants=(), properties=(), view=Non
     if constants:
         lines.append("CONSTANTS")
         for k, v in constants.items():
-            lines.append("  %s = %s" % (k, tla(v)))
+            if isinstance(v, Sub):
+                lines.append("  %s <- %s" % (k, v.s))
+            else:
+                lines.append("  %s = %s" % (k, tla(v)))
     lines.append("CHECK_DEADLOCK FALSE")
     if view:
         lines.append("VIEW " + view)
@@ -119,6 +122,13 @@ def tla(v):
 
 
 class Raw:
+    def __init__(self, s):
+        self.s = s
+
+
+class Sub:
+    """CONSTANT name <- operator (substitution in the TLC config)."""
+
     def __init__(self, s):
         self.s = s
 
